@@ -11,7 +11,7 @@ import (
 
 func init() {
 	register("C15", propMeta{
-		Explanation: "E-GUARD + E-LOCK x E-CHAN + E-PANIC on client/lib. O-1 capacity gate: in Collect the rendezvous (Tongue.Catch) is reachable only through the false edge of count >= max, with collectLock held continuously from the count to the insertion into activePeers, which has no other inserter; the hand-over channel's capacity is the maximum. O-2: Pop returns a peer only through the false edge of Closed() on that very peer. O-3 close-once: every close(ch) in client/lib is inside a sync.Once.Do closure or is a verified table row; O-3b no send can race with a close: for every channel that is both closed and sent on, one mutex is held at the close and at every send. O-4: while collectLock is held every channel operation is polling or is a select with a case on the melt channel (End needs the lock). O-5 shutdown reaches every loop: connectLoop blocks only in a select with a Melted() case that returns; Collect tests melt first under the lock; End closes melt before taking the lock and then closes every peer it holds; SnowflakeConn.Close reaches End, the packet conn, the session and the stream on all paths; the staleness loop selects on the peer's closed channel. O-6 a failed attempt cannot terminate the process: from Collect no reachable repository code contains an undischarged panic/Fatal/Exit/assertion, pointer results are used only behind their err == nil edge, and a field that a failing method may leave nil is not dereferenced before that method's error is tested. Each clause is a necessary condition: e.g. an unconditional send under collectLock makes Close hang once spare peers went stale. Added after the second seeding round: O-6d every construction of an event type whose String() calls Error() on a field without a nil test supplies a value that is non-nil at the construction site (fresh error, behind its != nil edge, or the argument of an error callback). The melt test and the hand-over select may live in helpers of Collect (boolean-helper summaries, entry locksets). Added after the third seeding round: the closed mark precedes the teardown steps in WebRTCPeer.Close; the rendezvous transport keeps ResponseHeaderTimeout (borrowed from C01); a vanished Count() use in the capacity test is a violation. Added after the fourth seeding round: every peer caught by Collect is inserted into activePeers or closed on every path; O-2b the data channel's OnClose callback reaches WebRTCPeer.Close; a close inside a function whose only call site is a Once.Do body counts as close-once. Added after the fifth seeding round: O-4b BrokerChannel.lock is not held across RendezvousMethod.Exchange; O-7/C20 goroutine bodies of the client write only state with a protection row (one connection's SOCKS arguments do not reach the next); Count() may be written out as purgeClosedPeers() plus activePeers.Len().",
+		Explanation: "E-GUARD + E-LOCK x E-CHAN + E-PANIC on client/lib. O-1 capacity gate: in Collect the rendezvous (Tongue.Catch) is reachable only through the false edge of count >= max, with collectLock held continuously from the count to the insertion into activePeers, which has no other inserter; the hand-over channel's capacity is the maximum. O-2: Pop returns a peer only through the false edge of Closed() on that very peer. O-3 close-once: every close(ch) in client/lib is inside a sync.Once.Do closure or is a verified table row; O-3b no send can race with a close: for every channel that is both closed and sent on, one mutex is held at the close and at every send. O-4: while collectLock is held every channel operation is polling or is a select with a case on the melt channel (End needs the lock). O-5 shutdown reaches every loop: connectLoop blocks only in a select with a Melted() case that returns; Collect tests melt first under the lock; End closes melt before taking the lock and then closes every peer it holds; SnowflakeConn.Close reaches End, the packet conn, the session and the stream on all paths; the staleness loop selects on the peer's closed channel. O-6 a failed attempt cannot terminate the process: from Collect no reachable repository code contains an undischarged panic/Fatal/Exit/assertion, pointer results are used only behind their err == nil edge, and a field that a failing method may leave nil is not dereferenced before that method's error is tested. Each clause is a necessary condition: e.g. an unconditional send under collectLock makes Close hang once spare peers went stale. Added after the second seeding round: O-6d every construction of an event type whose String() calls Error() on a field without a nil test supplies a value that is non-nil at the construction site (fresh error, behind its != nil edge, or the argument of an error callback). The melt test and the hand-over select may live in helpers of Collect (boolean-helper summaries, entry locksets). Added after the third seeding round: the closed mark precedes the teardown steps in WebRTCPeer.Close; the rendezvous transport keeps ResponseHeaderTimeout (borrowed from C01); a vanished Count() use in the capacity test is a violation. Added after the fourth seeding round: every peer caught by Collect is inserted into activePeers or closed on every path; O-2b the data channel's OnClose callback reaches WebRTCPeer.Close; a close inside a function whose only call site is a Once.Do body counts as close-once. Added after the fifth seeding round: O-4b BrokerChannel.lock is not held across RendezvousMethod.Exchange; O-7/C20 goroutine bodies of the client write only state with a protection row (one connection's SOCKS arguments do not reach the next); Count() may be written out as purgeClosedPeers() plus activePeers.Len(). Added after the sixth seeding round and the mutation audit: O-1c purgeClosedPeers removes exactly the peers whose Closed() is true; O-6e every ICEServer built from the configuration has a URL list literal at least as long as the constant index the NAT probe reads; O-9 a failure return that comes after one that closes a resource closes it too (E-CLEANUP).",
 		NotDecided:  "bounded time of Close, pion callback behaviour after Close, the TOCTOU between Closed() in Pop and first use, panics inside third-party code.",
 		Assumptions: []string{"pion fires OnOpen at most once per data channel (table row)", "crypto/rand failure is not a rendezvous failure (two panic rows)", "lock identity is (type, field)"},
 	}, runC15)
@@ -32,6 +32,134 @@ func runC15(c *Ctx) {
 		return
 	}
 	const CL = "Peers.collectLock"
+
+	// ---------- O-6e the NAT probe indexes only what the configuration parser guarantees ----------
+	// updateNATType reads server.URLs[0] of every configured ICE server in a goroutine nothing recovers: an entry
+	// with an empty URL list ends the client process
+	{
+		ruleU := "O-6e constant indexes into ICE server URL lists"
+		var sites []ssa.Instruction
+		var maxIdx int64
+		for _, fn := range cl {
+			allInstrs(fn, func(in ssa.Instruction) {
+				var x, idx ssa.Value
+				switch v := in.(type) {
+				case *ssa.IndexAddr:
+					x, idx = v.X, v.Index
+				case *ssa.Index:
+					x, idx = v.X, v.Index
+				default:
+					return
+				}
+				k, ok := constInt(idx)
+				if !ok {
+					return
+				}
+				if _, f, okf := fieldLoad(x); okf && f.Name() == "URLs" && fieldOwnerName(f) == "ICEServer" {
+					if len(lenAtLeastEdges(fn, x, k+1)) > 0 && reachableWithout(fn, in, lenAtLeastEdges(fn, x, k+1)) == nil {
+						return // guarded where it is used
+					}
+					sites = append(sites, in)
+					if k > maxIdx {
+						maxIdx = k
+					}
+				}
+			})
+		}
+		if len(sites) > 0 {
+			// every ICEServer this package builds has a URL list literal long enough
+			bad := ""
+			nLit := 0
+			for _, fn := range cl {
+				allInstrs(fn, func(in ssa.Instruction) {
+					st, ok := in.(*ssa.Store)
+					if !ok {
+						return
+					}
+					_, f, okf := fieldOfAddr(st.Addr)
+					if !okf || f.Name() != "URLs" || fieldOwnerName(f) != "ICEServer" {
+						return
+					}
+					nLit++
+					long := false
+					if sl, isSl := st.Val.(*ssa.Slice); isSl {
+						if al, isAl := sl.X.(*ssa.Alloc); isAl {
+							if at, isArr := al.Type().Underlying().(*types.Pointer).Elem().Underlying().(*types.Array); isArr && at.Len() > maxIdx {
+								long = true
+							}
+						}
+					}
+					if !long {
+						bad = p.instrPos(in)
+					}
+				})
+			}
+			if bad != "" {
+				c.viol(ruleU, "every ICE server built from the configuration has the URL the NAT probe reads", bad, fmt.Sprintf("an ICEServer is built whose URLs is not a literal of at least %d element(s) while %s indexes URLs[%d] without a length test: an entry that yields no URL (an empty item of the -ice list) makes the probe goroutine panic and the client exit", maxIdx+1, p.instrPos(sites[0]), maxIdx))
+			} else {
+				c.ok(ruleU, "every ICE server built from the configuration has the URL the NAT probe reads", p.instrPos(sites[0]), fmt.Sprintf("%d unguarded constant index site(s), %d URL list literal(s), all long enough", len(sites), nLit))
+			}
+		} else {
+			c.okTrivial(ruleU, "every ICE server built from the configuration has the URL the NAT probe reads", "-", "no unguarded constant index into ICEServer.URLs")
+		}
+	}
+
+	// ---------- O-1c closed peers leave the count ----------
+	// Count() is what the capacity gate compares with the maximum: a closed peer that stays in activePeers is
+	// counted for ever, and after max peers have died the client never collects another one.
+	if purge := p.FnLoose("client/lib", "(*Peers).purgeClosedPeers"); purge != nil {
+		var closedCalls []ssa.Value
+		for _, ci := range callsIn(purge) {
+			if f := staticCallee(ci); f != nil && f.Name() == "Closed" {
+				if v, ok := ci.(ssa.Value); ok {
+					closedCalls = append(closedCalls, v)
+				}
+			}
+		}
+		var removes []ssa.Instruction
+		for _, ci := range callsIn(purge) {
+			if calleeName(ci) == "(*container/list.List).Remove" {
+				removes = append(removes, ci)
+			}
+		}
+		ruleC := "O-1c closed peers leave the count"
+		if len(closedCalls) == 0 {
+			c.undecided(ruleC, "purgeClosedPeers removes the closed peers", p.Pos(purge.Pos()), "no Closed() test found")
+		} else if len(removes) == 0 {
+			c.viol(ruleC, "purgeClosedPeers removes the closed peers", p.Pos(purge.Pos()), "no element is removed from activePeers: peers that have closed are counted against the maximum for ever")
+		} else {
+			edges := boolEdges(purge, true, func(v ssa.Value) bool {
+				for _, cc := range closedCalls {
+					if strip(v) == cc {
+						return true
+					}
+				}
+				return false
+			})
+			good := len(edges) > 0
+			for _, rm := range removes {
+				if reachableWithout(purge, rm, edges) != nil {
+					good = false
+				}
+			}
+			// and the true edge leads to a Remove on every path to the next element
+			for _, e := range edges {
+				hit := false
+				for _, rm := range removes {
+					if rm.Block() == e.To() || e.To().Dominates(rm.Block()) {
+						hit = true
+					}
+				}
+				if !hit {
+					good = false
+				}
+			}
+			c.check(good, ruleC, "purgeClosedPeers removes the closed peers", p.Pos(purge.Pos()), fmt.Sprintf("%d Remove call(s) behind Closed() == true", len(removes)), "activePeers.Remove is not what happens exactly when Closed() is true: live peers are dropped from the count or closed ones stay in it")
+		}
+	}
+
+	// ---------- O-9 a failed step releases what the earlier steps created ----------
+	c.checkCleanupOnErrorPaths("O-9 failure returns release what was created", cl)
 
 	// ---------- O-1 capacity gate ----------
 	rule1 := "O-1 capacity gate"
